@@ -1352,6 +1352,206 @@ fn id3_mutants(d: &[u8]) -> Vec<(String, Vec<u8>)> {
     out
 }
 
+// ---------------------------------------------------------------------------------------------
+// small synthetic containers built from scratch
+
+/// "Plausible inner headers": the byte strings the handlers look for inside a carrier
+/// (box / chunk / segment / frame). Every prefix of them is used as a payload.
+fn inner_blobs() -> Vec<(&'static str, Vec<u8>)> {
+    let c2pa_jumd = jb::jumd(b"c2pa", "c2pa");
+    let manifest = jb::join(&jb::jumd(b"c2ma", "urn:c2pa:6f1d2c3a-5b7e-4c1d-9a2b-3c4d5e6f7a8b"), &[jb::join(&jb::jumd(b"c2as", "c2pa.assertions"), &[])]);
+    // content of a `jumb` box: description box first
+    let mut jumb_content = c2pa_jumd.clone();
+    jumb_content.extend(&manifest);
+    let jumb_box = jb::boxed(b"jumb", &[&jumb_content]);
+    // BMFF `uuid` box content for C2PA
+    let mut bmff_uuid = vec![0xd8u8, 0xfe, 0xc3, 0xd6, 0x1b, 0x0e, 0x48, 0x3c, 0x92, 0x97, 0x58, 0x28, 0x87, 0x7e, 0xc4, 0x81];
+    bmff_uuid.extend([0u8, 0, 0, 0]);
+    bmff_uuid.extend(b"manifest\0");
+    bmff_uuid.extend(0u64.to_be_bytes());
+    bmff_uuid.extend(&jumb_box);
+    // JPEG APP11 payload: CI "JP", instance, sequence number, then the box
+    let mut app11 = b"JP".to_vec();
+    app11.extend([0u8, 1, 0, 0, 0, 1]);
+    app11.extend(&jumb_box);
+    // ID3 GEOB frame content
+    let mut geob = vec![0u8];
+    geob.extend(b"application/x-c2pa-manifest-store\0c2pa\0c2pa manifest store\0");
+    geob.extend(&jumb_box);
+    // JXL `brob` content: wrapped type then a brotli stream
+    let mut brob = b"jumb".to_vec();
+    let mut comp = Vec::new();
+    let params = brotli::enc::BrotliEncoderParams { quality: 5, ..Default::default() };
+    let _ = brotli::BrotliCompress(&mut Cursor::new(&jumb_content), &mut comp, &params);
+    brob.extend(comp);
+    let mut xmp = br#"<?xpacket begin="" id="W5M0MpCehiHzreSzNTczkc9d"?><x:xmpmeta xmlns:x="adobe:ns:meta/"><rdf:RDF xmlns:rdf="http://www.w3.org/1999/02/22-rdf-syntax-ns#"><rdf:Description rdf:about="" xmlns:dcterms="http://purl.org/dc/terms/" dcterms:provenance="self#jumbf=c2pa/x"/></rdf:RDF></x:xmpmeta>"#.to_vec();
+    xmp.truncate(120);
+    let mut app1 = b"http://ns.adobe.com/xap/1.0/\0".to_vec();
+    app1.extend(&xmp);
+    vec![("jumb-content", jumb_content), ("jumb-box", jumb_box), ("bmff-c2pa-uuid", bmff_uuid), ("app11-jp", app11), ("geob", geob), ("brob-jumb", brob), ("xmp", xmp), ("app1-xmp", app1)]
+}
+
+/// A minimal container of `fmt` with one carrier of kind `carrier` holding exactly `payload`.
+fn synth_container(fmt: &str, carrier: &str, payload: &[u8]) -> Option<Vec<u8>> {
+    let bx = |t: &[u8; 4], parts: &[&[u8]]| jb::boxed(t, parts);
+    Some(match fmt {
+        "image/jxl" => {
+            let mut v = vec![0, 0, 0, 0x0c, b'J', b'X', b'L', b' ', 0x0d, 0x0a, 0x87, 0x0a];
+            v.extend(bx(b"ftyp", &[b"jxl \0\0\0\0jxl "]));
+            let t: [u8; 4] = carrier.as_bytes().try_into().ok()?;
+            v.extend(bx(&t, &[payload]));
+            v.extend(bx(b"jxlc", &[&[0xff, 0x0a, 0, 0]]));
+            v
+        }
+        "video/mp4" | "image/heic" | "image/avif" => {
+            let brand: &[u8] = match fmt {
+                "image/heic" => b"heic\0\0\0\0mif1heic",
+                "image/avif" => b"avif\0\0\0\0mif1avif",
+                _ => b"isom\0\0\x02\0isomiso2mp41",
+            };
+            let mut v = bx(b"ftyp", &[brand]);
+            let t: [u8; 4] = carrier.as_bytes().try_into().ok()?;
+            v.extend(bx(&t, &[payload]));
+            v.extend(bx(b"mdat", &[&[0u8; 8]]));
+            v
+        }
+        "image/png" => {
+            let chunk = |t: &[u8], d: &[u8]| {
+                let mut v = (d.len() as u32).to_be_bytes().to_vec();
+                v.extend(t);
+                v.extend(d);
+                let mut crc_in = t.to_vec();
+                crc_in.extend(d);
+                v.extend(crc32(&crc_in).to_be_bytes());
+                v
+            };
+            let mut v = b"\x89PNG\r\n\x1a\n".to_vec();
+            v.extend(chunk(b"IHDR", &[0, 0, 0, 1, 0, 0, 0, 1, 8, 0, 0, 0, 0]));
+            v.extend(chunk(carrier.as_bytes(), payload));
+            v.extend(chunk(b"IDAT", &[0x78, 0x9c, 0x63, 0x00, 0x00, 0x00, 0x01, 0x00, 0x01]));
+            v.extend(chunk(b"IEND", &[]));
+            v
+        }
+        "image/jpeg" => {
+            if payload.len() > 65_533 {
+                return None;
+            }
+            let marker = u8::from_str_radix(carrier, 16).ok()?;
+            let mut v = vec![0xff, 0xd8, 0xff, marker];
+            v.extend(((payload.len() + 2) as u16).to_be_bytes());
+            v.extend(payload);
+            v.extend([0xff, 0xd9]);
+            v
+        }
+        "image/webp" | "audio/wav" | "video/avi" => {
+            let form: &[u8; 4] = match fmt {
+                "image/webp" => b"WEBP",
+                "audio/wav" => b"WAVE",
+                _ => b"AVI ",
+            };
+            let mut body = form.to_vec();
+            body.extend(carrier.as_bytes());
+            body.extend((payload.len() as u32).to_le_bytes());
+            body.extend(payload);
+            if payload.len() % 2 == 1 {
+                body.push(0);
+            }
+            let mut v = b"RIFF".to_vec();
+            v.extend((body.len() as u32).to_le_bytes());
+            v.extend(body);
+            v
+        }
+        "image/gif" => {
+            let mut v = b"GIF89a".to_vec();
+            v.extend([1, 0, 1, 0, 0, 0, 0]);
+            v.extend([0x21, 0xff, 0x0b]);
+            v.extend(carrier.as_bytes().iter().take(11));
+            for c in payload.chunks(255) {
+                v.push(c.len() as u8);
+                v.extend(c);
+            }
+            v.push(0);
+            v.extend([0x2c, 0, 0, 0, 0, 1, 0, 1, 0, 0, 2, 2, 0x44, 1, 0, 0x3b]);
+            v
+        }
+        "image/tiff" => {
+            let tag = u16::from_str_radix(carrier, 16).ok()?;
+            let mut v = b"II*\0".to_vec();
+            v.extend(8u32.to_le_bytes());
+            v.extend(1u16.to_le_bytes());
+            v.extend(tag.to_le_bytes());
+            v.extend(7u16.to_le_bytes());
+            v.extend((payload.len() as u32).to_le_bytes());
+            if payload.len() <= 4 {
+                let mut inl = payload.to_vec();
+                inl.resize(4, 0);
+                v.extend(inl);
+            } else {
+                v.extend(26u32.to_le_bytes());
+            }
+            v.extend(0u32.to_le_bytes());
+            if payload.len() > 4 {
+                v.extend(payload);
+            }
+            v
+        }
+        "audio/mpeg" | "audio/flac" => {
+            let mut frame = carrier.as_bytes().to_vec();
+            frame.extend((payload.len() as u32).to_be_bytes());
+            frame.extend([0, 0]);
+            frame.extend(payload);
+            let n = frame.len();
+            let mut v = b"ID3\x03\0\0".to_vec();
+            v.extend([((n >> 21) & 0x7f) as u8, ((n >> 14) & 0x7f) as u8, ((n >> 7) & 0x7f) as u8, (n & 0x7f) as u8]);
+            v.extend(frame);
+            if fmt == "audio/flac" {
+                v.extend(b"fLaC\x80\0\0\x22");
+                v.extend([0u8; 34]);
+            } else {
+                v.extend([0xff, 0xfb, 0x90, 0x00]);
+                v.extend([0u8; 64]);
+            }
+            v
+        }
+        "image/svg+xml" => {
+            const B64: &[u8; 64] = b"ABCDEFGHIJKLMNOPQRSTUVWXYZabcdefghijklmnopqrstuvwxyz0123456789+/";
+            let mut b = String::new();
+            for c in payload.chunks(3) {
+                let n = (c[0] as u32) << 16 | (*c.get(1).unwrap_or(&0) as u32) << 8 | *c.get(2).unwrap_or(&0) as u32;
+                for k in 0..4 {
+                    if k <= c.len() {
+                        b.push(B64[((n >> (18 - 6 * k)) & 63) as usize] as char);
+                    } else {
+                        b.push('=');
+                    }
+                }
+            }
+            format!("<svg xmlns=\"http://www.w3.org/2000/svg\" xmlns:c2pa=\"http://c2pa.org/manifest\"><metadata><{carrier}>{b}</{carrier}></metadata></svg>").into_bytes()
+        }
+        "application/c2pa" => payload.to_vec(),
+        _ => return None,
+    })
+}
+
+/// (format, carriers) of the synthetic containers
+const SYNTH: [(&str, &[&str]); 15] = [
+    ("image/jxl", &["jumb", "brob", "xml ", "Exif", "uuid"]),
+    ("video/mp4", &["uuid", "moov", "meta", "free", "moof"]),
+    ("image/heic", &["uuid", "meta"]),
+    ("image/avif", &["uuid", "meta"]),
+    ("image/png", &["caBX", "iTXt"]),
+    ("image/jpeg", &["eb", "e1", "e2"]),
+    ("image/webp", &["C2PA", "XMP ", "VP8X", "EXIF"]),
+    ("audio/wav", &["C2PA", "LIST", "fmt "]),
+    ("video/avi", &["C2PA", "LIST"]),
+    ("image/gif", &["C2PA_GIF\x01\0\0", "XMP DataXMP"]),
+    ("image/tiff", &["cd41", "02bc", "014a"]),
+    ("audio/mpeg", &["GEOB", "PRIV", "TIT2"]),
+    ("audio/flac", &["GEOB"]),
+    ("image/svg+xml", &["c2pa:manifest"]),
+    ("application/c2pa", &["-"]),
+];
+
 fn limit_cases(run: &mut Run, rng: &mut Rng) {
     use c2pa::{status_tracker::StatusTracker, verif_hooks::{c10 as h10, c18 as h18, c20 as h20}};
     let thorough = run.thorough();
@@ -2165,7 +2365,33 @@ fn exec_case(c: &Case) -> Res {
         Ok(())
     });
     detail.push_str(&d2);
-    let (archive, d3) = if c.archive {
+    let (archive, d3) = if c.what.starts_with("synth:") {
+        // the handler's other entry points: object locations, box map, remove, write
+        use c2pa::verif_hooks::c07 as h07;
+        let store = jb::join(&jb::jumd(b"c2pa", "c2pa"), &[]);
+        let mut worst = ("h-err".to_string(), String::new());
+        let mut all_ok = true;
+        let entries: [(&str, Box<dyn FnOnce() -> c2pa::Result<()> + '_>); 5] = [
+            ("read_cai", Box::new(|| h07::read_cai(c.hint, &mut Cursor::new(c.data.clone())).map(|_| ()))),
+            ("object_locations", Box::new(|| h07::object_locations(c.hint, &mut Cursor::new(c.data.clone())).map(|_| ()))),
+            ("box_map", Box::new(|| h07::box_map(c.hint, &mut Cursor::new(c.data.clone())).unwrap_or(Ok(vec![])).map(|_| ()))),
+            ("remove", Box::new(|| h07::remove_cai_store_from_stream(c.hint, &mut Cursor::new(c.data.clone()), &mut Cursor::new(Vec::new())))),
+            ("write", Box::new(|| h07::write_cai(c.hint, &mut Cursor::new(c.data.clone()), &mut Cursor::new(Vec::new()), &store))),
+        ];
+        for (name, f) in entries {
+            let (o, d) = one_entry(f);
+            if o == "panic" {
+                worst = (format!("hpanic-{name}"), d);
+                all_ok = false;
+                break;
+            }
+            all_ok &= o == "ok";
+        }
+        if all_ok {
+            worst.0 = "h-ok".into();
+        }
+        worst
+    } else if c.archive {
         one_entry(|| Builder::from_context(Context::new().with_settings(offline())?).with_archive(Cursor::new(c.data.clone())).map(|_| ()))
     } else {
         ("-".into(), String::new())
@@ -2471,6 +2697,8 @@ pub fn run(run: &mut Run, rng: &mut Rng) {
                     Some(format!("panic:ingredient:{h}"))
                 } else if r.archive == "panic" {
                     Some("panic:archive".to_string())
+                } else if let Some(which) = r.archive.strip_prefix("hpanic-") {
+                    Some(format!("panic:{which}:{h}"))
                 } else if r.peak > alloc_allowance(&c.data) {
                     Some(format!("alloc-excess:{kind}"))
                 } else {
@@ -2736,6 +2964,35 @@ pub fn run(run: &mut Run, rng: &mut Rng) {
         let manifest_json = definition("c10 zip", "image/jpeg");
         for (n, size) in if thorough { vec![(3usize, 1000usize), (400, 1 << 20), (4000, 1 << 20)] } else { vec![(3, 1000), (400, 1 << 20)] } {
             emit!(Case { seed: usize::MAX, what: format!("zip-overlap {n}x{size}"), hint: "application/c2pa", data: zip_overlap(manifest_json.as_bytes(), n, size), archive: true });
+        }
+    }
+    // small synthetic containers of every format: one carrier (box / chunk / segment / frame / tag)
+    // whose payload is every prefix 0..=64 (and the full form) of the headers the handlers look for
+    // inside it — through read, ingredient and the handler's own entry points
+    {
+        let blobs = inner_blobs();
+        for (fmt, carriers) in SYNTH {
+            let hint: &'static str = HINTS.iter().find(|h| **h == fmt).copied().unwrap_or("xyz/unknown");
+            for carrier in carriers {
+                for (bi, (bname, blob)) in blobs.iter().enumerate() {
+                    // quick: every blob in the format's first carrier, two blobs elsewhere
+                    if !thorough && *carrier != carriers[0] && bi > 1 {
+                        continue;
+                    }
+                    let mut lens: Vec<usize> = (0..=64.min(blob.len())).collect();
+                    if blob.len() > 64 {
+                        lens.extend([blob.len() - 1, blob.len()]);
+                        if thorough {
+                            lens.extend(65..blob.len() - 1);
+                        }
+                    }
+                    for l in lens {
+                        if let Some(d) = synth_container(fmt, carrier, &blob[..l]) {
+                            emit!(Case { seed: usize::MAX, what: format!("synth:{}/{bname}={l}", carrier.trim_end_matches(|c: char| c.is_control())), hint, data: d, archive: false });
+                        }
+                    }
+                }
+            }
         }
     }
     // tiny inputs under every hint
